@@ -24,6 +24,7 @@ import (
 	"fmt"
 	"os"
 	"path/filepath"
+	"regexp"
 	"sort"
 	"strings"
 	"sync"
@@ -575,6 +576,95 @@ func partCluster(c *vlib.Check, scID string, replace bool, st *scanStats) {
 		"network_bytes": netBytes, "log_bytes": logBytes, "answers": len(answers)})
 }
 
+// ---------------------------------------------------------------- c15-badfiles
+
+// partBadFiles: a daemon started on key material that parses but is rejected (legacy / unknown scheme name, damaged
+// commitments, damaged public key): whatever it says about that (start-up error, log, control answer) must not
+// contain the private scalar that is still intact in the file.
+func partBadFiles(c *vlib.Check, scID string, st *scanStats) {
+	type corruption struct {
+		name string
+		file string // relative to <dir>/multibeacon/<id>/
+		edit func(string) string
+	}
+	re := func(pat, repl string) func(string) string {
+		r := regexp.MustCompile(pat)
+		return func(s string) string { return r.ReplaceAllString(s, repl) }
+	}
+	corruptions := []corruption{
+		{"share: unknown scheme name", "groups/dist_key.private", re(`SchemeName = "[^"]*"`, `SchemeName = "no-such-scheme"`)},
+		{"share: scheme name missing (legacy file)", "groups/dist_key.private", re(`(?m)^SchemeName = "[^"]*"\n?`, "")},
+		{"share: first commitment damaged", "groups/dist_key.private", re(`Commits = \["([0-9a-f]{6})`, `Commits = ["ffffff`)},
+		{"share: first commitment truncated", "groups/dist_key.private", re(`Commits = \["([0-9a-f]{4})`, `Commits = ["`)},
+		{"share: index out of range", "groups/dist_key.private", re(`Index = \d+`, `Index = 99999`)},
+		{"key pair: unknown scheme name", "key/drand_id.private", re(`SchemeName = "[^"]*"`, `SchemeName = "no-such-scheme"`)},
+		{"key pair: scheme name missing (legacy file)", "key/drand_id.private", re(`(?m)^SchemeName = "[^"]*"\n?`, "")},
+		{"public key: damaged", "key/drand_id.public", re(`Key = "([0-9a-f]{6})`, `Key = "ffffff`)},
+		{"public key: unknown scheme name", "key/drand_id.public", re(`SchemeName = "[^"]*"`, `SchemeName = "no-such-scheme"`)},
+		{"group: threshold zero", "groups/drand_group.toml", re(`Threshold = \d+`, `Threshold = 0`)},
+		{"group: unknown scheme", "groups/drand_group.toml", re(`SchemeID = "[^"]*"`, `SchemeID = "no-such-scheme"`)},
+	}
+	n := 0
+	for _, co := range corruptions {
+		dir, rm := fix.ScratchDir()
+		sp := bench.NewSpec(dir, []bench.ChainSpec{{ID: "default", Scheme: scID, Kind: "running"}}, 1)
+		sp.LogFile = dir + "/daemon.log"
+		// first start: the daemon fabricates its files; stop it, damage one file, start it again
+		ch, err := bench.StartChild(sp)
+		if err != nil {
+			c.EngineError("c15-badfiles %s: first start: %v", scID, err)
+			rm()
+			continue
+		}
+		chain := ch.Chains["default"]
+		secrets := []secscan.Secret{{Name: "long-term key", Raw: scalarBytes(chain.Pair.Key)}, {Name: "share", Raw: scalarBytes(chain.Share.PrivateShare().V)}}
+		sc := secscan.New(secrets)
+		ch.Kill(true)
+		f := dir + "/multibeacon/default/" + co.file
+		b, err := os.ReadFile(f)
+		if err != nil {
+			c.EngineError("c15-badfiles: %v", err)
+			rm()
+			continue
+		}
+		edited := co.edit(string(b))
+		if edited == string(b) {
+			c.EngineError("c15-badfiles: corruption %q did not change %s", co.name, co.file)
+			rm()
+			continue
+		}
+		_ = os.WriteFile(f, []byte(edited), 0o600)
+		n++
+		var hs []hay
+		ch2, err := bench.StartChild(sp)
+		if err != nil {
+			hs = append(hs, hay{"response:start-up error", []byte(err.Error())})
+		} else {
+			if r, err := ch2.Ctrl.Status("default"); err != nil {
+				hs = append(hs, hay{"control-response:Status", []byte(err.Error())})
+			} else {
+				bb, _ := proto.Marshal(r)
+				hs = append(hs, hay{"control-response:Status", bb})
+			}
+			if r, err := ch2.Ctrl.LoadBeacon("default"); err != nil {
+				hs = append(hs, hay{"control-response:LoadBeacon", []byte(err.Error())})
+			} else {
+				bb, _ := proto.Marshal(r)
+				hs = append(hs, hay{"control-response:LoadBeacon", bb})
+			}
+			ch2.Kill(true)
+		}
+		for _, lf := range []string{"daemon.log", "stderr.log"} {
+			if lb, err := os.ReadFile(dir + "/" + lf); err == nil {
+				hs = append(hs, hay{"log:" + lf, lb})
+			}
+		}
+		scanAll(c, "badfiles", sc, hs, st, scID+", daemon started with "+co.name)
+		rm()
+	}
+	c.Sub("c15-badfiles/"+scID, map[string]any{"engine": "exhaustive list of rejected-but-parsable key material files x real daemon start", "corruptions": n})
+}
+
 func main() {
 	bench.MaybeChild()
 	c := vlib.New("C15", "model_checking")
@@ -590,6 +680,9 @@ func main() {
 		clusterSchemes = schemes
 	}
 	partFiles(c, schemes, st)
+	for _, sc := range clusterSchemes {
+		partBadFiles(c, sc, st)
+	}
 	var wg sync.WaitGroup
 	wg.Add(1)
 	go func() { defer wg.Done(); partAPI(c, st) }()
